@@ -678,15 +678,25 @@ def specStep (f : Nat → List Val) : Op → Option ((Nat → List Val) × Ret)
     | _, _ => none
   | .iter r => some (f, .pos (f r).length)
 
-/-! ### flat_map / flat_set (storage = a vector, modelled by its element list) -/
+/-! ### flat_map / flat_set (storage = a vector, modelled by its element list)
 
-/-- `std::find_if(begin, end, key ==)` as an index -/
-def findIdx (k : Int) : List (Int × Int) → Nat
+  `lt` is the `Compare` object (`_comp(a, b)`): std::less<int> = `ltInt`, but any comparator can be plugged in
+  (the driver knows std::greater<int>, "smaller last digit" and std::greater<std::string> on the decimal
+  text).  Two keys are THE SAME KEY when neither orders before the other (`same`), as in std::map / std::set. -/
+
+/-- std::less<int> -/
+def ltInt (a b : Int) : Bool := decide (a < b)
+
+/-- `!_comp(a, b) && !_comp(b, a)` -/
+def same (lt : Int → Int → Bool) (a b : Int) : Bool := !lt a b && !lt b a
+
+/-- `std::find_if(begin, end, same key)` as an index -/
+def findIdx (lt : Int → Int → Bool) (k : Int) : List (Int × Int) → Nat
   | [] => 0
-  | p :: ps => if p.1 = k then 0 else findIdx k ps + 1
+  | p :: ps => if same lt p.1 k then 0 else findIdx lt k ps + 1
 
-/-- libstdc++ `std::upper_bound(first, last, value, a.first < b.first)` on a possibly unsorted vector -/
-def mapUpper (m : List (Int × Int)) (k : Int) : Nat → Nat → Nat → Nat
+/-- libstdc++ `std::upper_bound(first, last, value, _comp(a.first, b.first))` on a possibly unsorted vector -/
+def mapUpper (lt : Int → Int → Bool) (m : List (Int × Int)) (k : Int) : Nat → Nat → Nat → Nat
   | 0, first, _ => first
   | fuel + 1, first, len =>
     if len = 0 then first else
@@ -694,8 +704,8 @@ def mapUpper (m : List (Int × Int)) (k : Int) : Nat → Nat → Nat → Nat
     match m[first + half]? with
     | none => first
     | some p =>
-      if k < p.1 then mapUpper m k fuel first half
-      else mapUpper m k fuel (first + half + 1) (len - half - 1)
+      if lt k p.1 then mapUpper lt m k fuel first half
+      else mapUpper lt m k fuel (first + half + 1) (len - half - 1)
 
 def listInsert {α} (xs : List α) (pos : Nat) (x : α) : List α := xs.take pos ++ x :: xs.drop pos
 
@@ -703,37 +713,41 @@ structure FMap where
   st : List (Int × Int) := []
 
 namespace FMap
-def find (m : FMap) (k : Int) : Option Int :=
-  let i := findIdx k m.st
-  (m.st[i]?).map (·.2)
-def count (m : FMap) (k : Int) : Nat := m.st.countP (·.1 = k)
+variable (lt : Int → Int → Bool)
+/-- find(): the entry `*it` found by find_if, `none` = end() -/
+def findEntry (m : FMap) (k : Int) : Option (Int × Int) := m.st[findIdx lt k m.st]?
+def find (m : FMap) (k : Int) : Option Int := (m.findEntry lt k).map (·.2)
+def count (m : FMap) (k : Int) : Nat := m.st.countP (fun p => same lt p.1 k)
 /-- operator[]: a reference to the mapped value, default-inserted at the END if absent -/
 def index (m : FMap) (k : Int) : FMap × Int :=
-  match m.find k with
+  match m.find lt k with
   | some v => (m, v)
   | none => (⟨m.st ++ [(k, 0)]⟩, 0)
-/-- `m[k] = v` -/
+/-- `m[k] = v` (a present entry keeps its stored key) -/
 def assign (m : FMap) (k v : Int) : FMap :=
-  let i := findIdx k m.st
-  if i < m.st.length then ⟨m.st.set i (k, v)⟩ else ⟨m.st ++ [(k, v)]⟩
+  let i := findIdx lt k m.st
+  match m.st[i]? with
+  | some p => ⟨m.st.set i (p.1, v)⟩
+  | none => ⟨m.st ++ [(k, v)]⟩
+/-- insert(value): the entry the returned iterator points to -/
 def insert (m : FMap) (k v : Int) : FMap × Int × Int :=
-  match m.find k with
-  | some w => (m, k, w)
-  | none => (⟨listInsert m.st (mapUpper m.st k m.st.length 0 m.st.length) (k, v)⟩, k, v)
+  match m.findEntry lt k with
+  | some p => (m, p.1, p.2)
+  | none => (⟨listInsert m.st (mapUpper lt m.st k m.st.length 0 m.st.length) (k, v)⟩, k, v)
 def emplace (m : FMap) (k v : Int) : FMap × Bool × Int :=
-  match m.find k with
+  match m.find lt k with
   | some w => (m, false, w)
   | none => (⟨m.st ++ [(k, v)]⟩, true, v)
 /-- initializer-list constructor (after the fix): first entry of a key wins -/
 def ofList : List (Int × Int) → FMap → FMap
   | [], m => m
-  | (k, v) :: r, m => ofList r (if (m.find k).isSome then m else ⟨m.st ++ [(k, v)]⟩)
+  | (k, v) :: r, m => ofList r (if (m.find lt k).isSome then m else ⟨m.st ++ [(k, v)]⟩)
 /-- the constructor before the fix: `storage(init)` -/
 def ofListOrig (l : List (Int × Int)) : FMap := ⟨l⟩
 end FMap
 
-/-- libstdc++ `std::lower_bound` -/
-def lowerBound (s : List Int) (k : Int) : Nat → Nat → Nat → Nat
+/-- libstdc++ `std::lower_bound(first, last, key, _comp)` -/
+def lowerBound (lt : Int → Int → Bool) (s : List Int) (k : Int) : Nat → Nat → Nat → Nat
   | 0, first, _ => first
   | fuel + 1, first, len =>
     if len = 0 then first else
@@ -741,23 +755,291 @@ def lowerBound (s : List Int) (k : Int) : Nat → Nat → Nat → Nat
     match s[first + half]? with
     | none => first
     | some m =>
-      if m < k then lowerBound s k fuel (first + half + 1) (len - half - 1)
-      else lowerBound s k fuel first half
+      if lt m k then lowerBound lt s k fuel (first + half + 1) (len - half - 1)
+      else lowerBound lt s k fuel first half
 
 structure FSet where
   st : List Int := []
 
 namespace FSet
-def lb (s : FSet) (k : Int) : Nat := lowerBound s.st k s.st.length 0 s.st.length
+variable (lt : Int → Int → Bool)
+def lb (s : FSet) (k : Int) : Nat := lowerBound lt s.st k s.st.length 0 s.st.length
 def insert (s : FSet) (k : Int) : FSet :=
-  let i := s.lb k
+  let i := s.lb lt k
   match s.st[i]? with
-  | some x => if ¬ (k < x) then s else ⟨listInsert s.st i k⟩
+  | some x => if ¬ (lt k x) then s else ⟨listInsert s.st i k⟩
   | none => ⟨listInsert s.st i k⟩
 def count (s : FSet) (k : Int) : Nat :=
-  match s.st[s.lb k]? with
-  | some x => if ¬ (k < x) then 1 else 0
+  match s.st[s.lb lt k]? with
+  | some x => if ¬ (lt k x) then 1 else 0
   | none => 0
 end FSet
+
+/-! ### operation languages of flat_map / flat_set (what the driver executes for `reset flat …` cases and
+    what the refinement theorems quantify over) -/
+
+namespace FMap
+/-- at(): the same find_if loop as find; `none` = throws std::out_of_range -/
+def atKey (lt : Int → Int → Bool) (m : FMap) (k : Int) : Option Int := m.find lt k
+def size (m : FMap) : Nat := m.st.length
+end FMap
+
+inductive MOp where
+  | index (k : Int)              -- `m[k]` (read through the reference)
+  | assign (k v : Int)           -- `m[k] = v`
+  | insert (k v : Int)           -- `m.insert({k, v})`
+  | emplace (k v : Int)          -- `m.emplace(k, v)`
+  | find (k : Int)
+  | count (k : Int)
+  | at (k : Int)
+  | size
+  | clear
+  | init (l : List (Int × Int))  -- `m = flat_map{…}` (initializer list)
+  deriving Repr
+
+inductive MRet where
+  | unit
+  | val (v : Int)                -- a mapped value
+  | kv (k v : Int)               -- `*it` of the returned iterator
+  | flag (b : Bool) (v : Int)    -- `.second`, `.first->second` of emplace
+  | opt (o : Option Int)         -- find: the mapped value or end()
+  | nat (n : Nat)
+  | throw
+  deriving DecidableEq, Repr
+
+def FMap.step (lt : Int → Int → Bool) (m : FMap) : MOp → FMap × MRet
+  | .index k => let (m, v) := m.index lt k; (m, .val v)
+  | .assign k v => (m.assign lt k v, .unit)
+  | .insert k v => let (m, a, b) := m.insert lt k v; (m, .kv a b)
+  | .emplace k v => let (m, b, w) := m.emplace lt k v; (m, .flag b w)
+  | .find k => (m, .opt (m.find lt k))
+  | .count k => (m, .nat (m.count lt k))
+  | .at k => (m, match m.atKey lt k with | some v => .val v | none => .throw)
+  | .size => (m, .nat m.size)
+  | .clear => (⟨[]⟩, .unit)
+  | .init l => (FMap.ofList lt l ⟨[]⟩, .unit)
+
+def FMap.run (lt : Int → Int → Bool) : FMap → List MOp → FMap × List MRet
+  | m, [] => (m, [])
+  | m, op :: ops =>
+    let (m1, r) := m.step lt op
+    let (m2, rs) := FMap.run lt m1 ops
+    (m2, r :: rs)
+
+inductive SOp where
+  | insert (k : Int)
+  | count (k : Int)
+  | size
+  | clear
+  | iter                         -- `for (it = begin(); it != end(); ++it)`
+  deriving Repr
+
+inductive SRet where
+  | unit
+  | nat (n : Nat)
+  | keys (l : List Int)
+  deriving DecidableEq, Repr
+
+def FSet.step (lt : Int → Int → Bool) (s : FSet) : SOp → FSet × SRet
+  | .insert k => (s.insert lt k, .unit)
+  | .count k => (s, .nat (s.count lt k))
+  | .size => (s, .nat s.st.length)
+  | .clear => (⟨[]⟩, .unit)
+  | .iter => (s, .keys s.st)
+
+def FSet.run (lt : Int → Int → Bool) : FSet → List SOp → FSet × List SRet
+  | s, [] => (s, [])
+  | s, op :: ops =>
+    let (s1, r) := s.step lt op
+    let (s2, rs) := FSet.run lt s1 ops
+    (s2, r :: rs)
+
+/-- first index whose element is not less than `k` (what std::lower_bound returns on a sorted vector) -/
+def lbSpec (lt : Int → Int → Bool) (k : Int) : List Int → Nat
+  | [] => 0
+  | y :: ys => if lt y k then lbSpec lt k ys + 1 else 0
+
+/-- first index whose key is greater than `k` under the comparator -/
+def ubSpecBy (lt : Int → Int → Bool) (k : Int) : List Int → Nat
+  | [] => 0
+  | y :: ys => if lt k y then 0 else ubSpecBy lt k ys + 1
+
+/-! ### the member functions as they were BEFORE the `fix:` commits of branch fix-C02
+
+  Kept so that every repaired defect has a kernel-checked witness: a short history that std::vector accepts
+  and the repaired code runs, on which the original body faults in the slot model.  Transcribed from
+  `git show db40834^:igris/container/vector.h` (the tree before the first fix). -/
+
+/-- `std::move_backward(first, last, d_last)` of the original insert / emplace / range insert: EVERY
+    element is move-ASSIGNED `k` slots up (the repaired `shift_up` move-constructs into the slots behind the
+    old end); `cnt` iterations left, the next source is `pos + cnt - 1` -/
+def moveBackwardOrig (b : Buf) (pos k : Nat) : Nat → Ledger → Option (Buf × Ledger)
+  | 0, l => some (b, l)
+  | cnt + 1, l =>
+    match moveOut b (pos + cnt) with
+    | none => none
+    | some (x, b) =>
+      match assign b (pos + cnt + k) x with
+      | none => none
+      | some b => moveBackwardOrig b pos k cnt (l.addMasg 1)
+
+/-- a `const T &` / forwarded argument read AFTER `reserve`: a reference to an own element dangles when the
+    buffer was replaced (read of a freed block = fault) -/
+def argValLate (realloc : Bool) (v : Vec) : Arg → Option Val
+  | .val x => some x
+  | .own i => if realloc then none else argVal v (.own i)
+
+/-- 37ab9b2^: `invalidate(); m_data = m_alloc.allocate(m_size); m_size = other.m_size; m_capacity = m_size;`
+    then the copy loop — `m_size` is 0 after invalidate(), so the block has 0 slots -/
+def copyAssignOrig (v o : Vec) (l : Ledger) : Option (Vec × Ledger) :=
+  match invalidate v l with
+  | none => none
+  | some (v0, l) =>
+    match copyLoop o.data (Buf.fresh v0.size) 0 o.size (l.addAlloc 1) with
+    | none => none
+    | some (b, l) => some ({ data := some b, cap := o.size, size := o.size }, l)
+
+/-- db40834^: `for (i < sz) destructor(first + i); std::move(last, end(), first); m_size -= sz;` -/
+def eraseOrig (v : Vec) (f t : Nat) (l : Ledger) : Option (Vec × Ledger) :=
+  match v.data with
+  | none => if t - f = 0 ∧ v.size - t = 0 then some (v, l) else none
+  | some b =>
+    match destroyRange b f (t - f) l with
+    | none => none
+    | some (b, l) =>
+      match moveDown b t f (v.size - t) l with
+      | none => none
+      | some (b, l) => some ({ v with data := some b, size := v.size - (t - f) }, l)
+
+/-- 5125225^: `void erase(iterator newend) { m_size = newend - m_data; }` -/
+def eraseToOrig (v : Vec) (k : Nat) (l : Ledger) : Option (Vec × Ledger) :=
+  if k > v.size then none else some ({ v with size := k }, l)
+
+/-- ebcd133^: `reserve(m_size + 1); constructor(m_data + m_size, ref); m_size++;` -/
+def emplaceBackOrig (v : Vec) (a : Arg) (l : Ledger) : Option (Vec × Ledger) :=
+  let realloc := decide (v.size + 1 > v.cap)
+  match reserve v (v.size + 1) l with
+  | none => none
+  | some (v, l) =>
+    match argValLate realloc v a, v.data with
+    | some x, some b =>
+      match construct b v.size x with
+      | none => none
+      | some b => some ({ v with data := some b, size := v.size + 1 }, l.addCtor 1)
+    | _, _ => none
+
+/-- f1b29cb^, insert(pos, value): `reserve(m_size + 1); m_size++; move_backward(first, prev(end()), end());
+    *first = value;` -/
+def insertOrig (v : Vec) (pos : Nat) (a : Arg) (l : Ledger) : Option (Vec × Ledger) :=
+  let realloc := decide (v.size + 1 > v.cap)
+  match reserve v (v.size + 1) l with
+  | none => none
+  | some (v, l) =>
+    match v.data with
+    | none => none
+    | some b =>
+      match moveBackwardOrig b pos 1 (v.size - pos) l with
+      | none => none
+      | some (b, l) =>
+        match argValLate realloc { v with data := some b } a with
+        | none => none
+        | some x =>
+          match assign b pos x with
+          | none => none
+          | some b => some ({ v with data := some b, size := v.size + 1 }, l.addAsg 1)
+
+/-- f1b29cb^, emplace(pos, args…): the same with `new (first) T(args…)` over the slot at `pos` -/
+def emplaceOrig (v : Vec) (pos : Nat) (a : Arg) (l : Ledger) : Option (Vec × Ledger) :=
+  let realloc := decide (v.size + 1 > v.cap)
+  match reserve v (v.size + 1) l with
+  | none => none
+  | some (v, l) =>
+    match v.data with
+    | none => none
+    | some b =>
+      match moveBackwardOrig b pos 1 (v.size - pos) l with
+      | none => none
+      | some (b, l) =>
+        match argValLate realloc { v with data := some b } a with
+        | none => none
+        | some x =>
+          match construct b pos x with
+          | none => none
+          | some b => some ({ v with data := some b, size := v.size + 1 }, l.addCtor 1)
+
+/-- `std::copy(m_data + _first, m_data + _last, first_it)` of the original range insert: the source offsets
+    were taken before `reserve` and are used unchanged afterwards (no correction for the shift; a foreign
+    range re-based on a replaced buffer points into unrelated memory = fault) -/
+def copyInOrig (b : Buf) (realloc : Bool) (pos : Nat) (src : Src) (k : Nat) : Nat → Ledger → Option (Buf × Ledger)
+  | 0, l => some (b, l)
+  | n + 1, l =>
+    let x : Option Val :=
+      match src with
+      | .own f _ => rd b (f + k)
+      | .ext xs => if realloc then none else xs[k]?
+    match x with
+    | none => none
+    | some x =>
+      match assign b (pos + k) x with
+      | none => none
+      | some b => copyInOrig b realloc pos src (k + 1) n (l.addAsg 1)
+
+/-- a60ae02^: `sz = _last - _first; reserve(m_size + sz); m_size += sz; move_backward(first_it,
+    prev(end(), sz), end()); std::copy(m_data + _first, m_data + _last, first_it);` -/
+def insertRangeOrig (v : Vec) (pos : Nat) (src : Src) (l : Ledger) : Option (Vec × Ledger) :=
+  let sz := src.count
+  let realloc := decide (v.size + sz > v.cap)
+  match reserve v (v.size + sz) l with
+  | none => none
+  | some (v, l) =>
+    match v.data with
+    | none => if sz = 0 then some (v, l) else none
+    | some b =>
+      match moveBackwardOrig b pos sz (v.size - pos) l with
+      | none => none
+      | some (b, l) =>
+        match copyInOrig b realloc pos src 0 sz l with
+        | none => none
+        | some (b, l) => some ({ v with data := some b, size := v.size + sz }, l)
+
+/-- 7c36ffc^, const at(): `assert(num < m_size);` in front of the range test — `none` = abort -/
+def vecAtConstOrig (v : Vec) (i : Nat) : Option (Option Val) :=
+  if i ≥ v.size then none else vecAt v i
+
+/-- which original body is put back (one defect at a time; everything else is the repaired code) -/
+inductive Orig where
+  | copyAssign | eraseRange | eraseTo | pushBack | insert | emplace | insertRange | constAt
+  deriving DecidableEq, Repr
+
+def stepOrig (o : Orig) (s : St) (op : Op) : Option (St × Ret) :=
+  match o, op with
+  | .copyAssign, .copyAssign d src =>
+    if d = src then some (s, .unit) else
+    (copyAssignOrig (s.regs d) (s.regs src) s.led).map fun (v, l) => (s.set d v l, .unit)
+  | .eraseRange, .erase r f t => (eraseOrig (s.regs r) f t s.led).map fun (v, l) => (s.set r v l, .unit)
+  | .eraseTo, .eraseTo r k => (eraseToOrig (s.regs r) k s.led).map fun (v, l) => (s.set r v l, .unit)
+  | .pushBack, .emplaceBack r a => (emplaceBackOrig (s.regs r) a s.led).map fun (v, l) => (s.set r v l, .unit)
+  | .insert, .emplace r pos a => (insertOrig (s.regs r) pos a s.led).map fun (v, l) => (s.set r v l, .pos pos)
+  | .emplace, .emplace r pos a => (emplaceOrig (s.regs r) pos a s.led).map fun (v, l) => (s.set r v l, .pos pos)
+  | .insertRange, .insertRange r pos src =>
+    (insertRangeOrig (s.regs r) pos src s.led).map fun (v, l) => (s.set r v l, .pos pos)
+  | .constAt, .at r i => (vecAtConstOrig (s.regs r) i).map fun x => (s, match x with | some v => .val v | none => .throw)
+  | _, op => step false s op
+
+/-- a history on the code with ONE original body put back, followed by the destructors of registers 0..2 -/
+def runOrig (o : Orig) : St → List Op → Option St
+  | s, [] => destroyAll s 3
+  | s, op :: ops =>
+    match stepOrig o s op with
+    | none => none
+    | some (s, _) => runOrig o s ops
+
+/-- the same history on the repaired code -/
+def runFixed : St → List Op → Option St
+  | s, [] => destroyAll s 3
+  | s, op :: ops =>
+    match step false s op with
+    | none => none
+    | some (s, _) => runFixed s ops
 
 end Igris.C02
